@@ -437,6 +437,25 @@ def prefix_checks(ctx):
         except Exception as e:
             rec.violation("C13:refusal:same-library-twice:wrong-exception:" + type(e).__name__, versions=repr(spec),
                           error=repr(e)[:200])
+    # a group built from schema objects: two members under one prefix are refused - also when they are the same object
+    # (version loads are cached, so naming a version twice gives the same object twice) or equal objects loaded apart
+    from hed.schema.hed_schema_group import HedSchemaGroup
+    from hed.schema import load_schema as _load_file
+    for label, make in (("same-object-twice:prefixed", lambda: [load_schema_version(v) for v in ("8.2.0", "sc:score_1.1.0", "sc:score_1.1.0")]),
+                        ("same-object-twice:unprefixed", lambda: [load_schema_version(v) for v in ("8.2.0", "8.2.0")]),
+                        ("same-object-twice:only", lambda: [load_schema_version("sc:score_1.1.0")] * 2),
+                        ("equal-objects", lambda: [_load_file(os.path.join(core.SCHEMA_DATA, "HED_score_1.1.0.xml"), schema_namespace="sc:")
+                                                   for _ in range(2)]),
+                        ("different-versions", lambda: [load_schema_version(v) for v in ("sc:score_1.1.0", "sc:score_1.0.0")])):
+        rec.n("evaluations")
+        rec.n("distinct_nontrivial")
+        try:
+            HedSchemaGroup(make())
+            rec.violation("C13:refusal:group-of-objects:two-members-under-one-prefix-accepted", members=label)
+        except HedFileError:
+            rec.outcome("group-of-objects-refused")
+        except Exception as e:
+            rec.violation("C13:refusal:group-of-objects:wrong-exception:" + type(e).__name__, members=label, error=repr(e)[:200])
     # several libraries under one prefix, loaded from a folder that holds only the first one's file (the others are found
     # after the folder is completed from the installation): the same schema, or the same refusal, as from a complete cache
     import shutil
